@@ -226,13 +226,13 @@ Proof.
   pose proof (N.div_mod c 256 ltac:(lia)). lia.
 Qed.
 
-Lemma r_name_utf16 name : forall rest fuel,
-  wf_name name = true -> (List.length (utf16 name ++ rest) < fuel)%nat -> r_name fuel (utf16 name ++ rest) = POk name rest.
+Lemma r_name_units us : forall rest fuel,
+  wf_units us = true -> (List.length (utf16u us ++ rest) < fuel)%nat -> r_name fuel (utf16u us ++ rest) = POk us rest.
 Proof.
-  unfold utf16. induction name as [|c name IH]; intros rest fuel Hw HF.
+  unfold utf16u. induction us as [|c us IH]; intros rest fuel Hw HF.
   - destruct fuel; [cbn in HF; lia|]. cbn [flat_map app r_name].
     rewrite (r_u16_le 0 rest ltac:(lia) : r_u16 (0 :: 0 :: rest) = POk 0 rest). reflexivity.
-  - cbn [wf_name forallb] in Hw. apply andb_true_iff in Hw as [Hc Hw]. apply andb_true_iff in Hc as [C1 C2].
+  - cbn [wf_units forallb] in Hw. apply andb_true_iff in Hw as [Hc Hw]. apply andb_true_iff in Hc as [C1 C2].
     apply N.ltb_lt in C1, C2.
     destruct fuel as [|fuel]; [cbn in HF; lia|].
     cbn [flat_map app] in *. rewrite <- !app_assoc in *. cbn [app] in *. cbn [r_name].
@@ -240,6 +240,53 @@ Proof.
     pose proof (IH rest fuel Hw) as IH'. rewrite <- app_assoc in IH'. cbn [app] in IH'.
     rewrite IH'; [reflexivity|]. cbn [List.length] in HF. lia.
 Qed.
+
+Lemma wf_name_units name : wf_name name = true -> wf_units (flat_map units_of name) = true.
+Proof.
+  induction name as [|c name IH]; cbn [wf_name forallb flat_map]; [reflexivity|]. intro H.
+  apply andb_true_iff in H as [Hc Hn]. unfold wf_units in *. rewrite forallb_app, (IH Hn), andb_true_r.
+  repeat (apply andb_true_iff in Hc; destruct Hc as [Hc ?X]). apply N.ltb_lt in Hc, X0.
+  unfold units_of. destruct (N.ltb_spec c 65536) as [L|L]; cbn [forallb].
+  - rewrite andb_true_r. apply andb_true_iff. split; [apply N.ltb_lt; lia | apply N.ltb_lt; exact L].
+  - assert ((c - 65536) / 1024 < 1024) by (apply N.div_lt_upper_bound; lia).
+    pose proof (N.mod_lt (c - 65536) 1024 ltac:(lia)).
+    set (q := (c - 65536) / 1024) in *. set (m := (c - 65536) mod 1024) in *.
+    assert (A1 : (0 <? 55296 + q) = true) by (apply N.ltb_lt; lia).
+    assert (A2 : (55296 + q <? 65536) = true) by (apply N.ltb_lt; lia).
+    assert (A3 : (0 <? 56320 + m) = true) by (apply N.ltb_lt; lia).
+    assert (A4 : (56320 + m <? 65536) = true) by (apply N.ltb_lt; lia).
+    rewrite A1, A2, A3, A4. reflexivity.
+Qed.
+
+Lemma join_pairs_units name : wf_name name = true -> join_pairs (flat_map units_of name) = name.
+Proof.
+  induction name as [|c name IH]; [reflexivity|]. cbn [wf_name forallb flat_map]. intro H.
+  apply andb_true_iff in H as [Hc Hn]. specialize (IH Hn).
+  repeat (apply andb_true_iff in Hc; destruct Hc as [Hc ?X]). apply N.ltb_lt in Hc, X0. apply negb_true_iff in X.
+  unfold units_of at 1. destruct (N.ltb_spec c 65536) as [L|L]; cbn [app].
+  - assert (Hh : is_high c = false).
+    { assert (Hns : c < 55296 \/ 57343 < c).
+      { apply andb_false_iff in X. destruct X as [X|X]; apply N.leb_gt in X; [left | right]; exact X. }
+      unfold is_high. destruct (N.leb_spec 55296 c); [|reflexivity]. destruct (N.leb_spec c 56319); [|reflexivity].
+      exfalso. lia. }
+    cbn [join_pairs]. destruct (flat_map units_of name) as [|u r] eqn:E.
+    + cbn in IH. rewrite <- IH. reflexivity.
+    + rewrite Hh. cbn [andb]. rewrite IH. reflexivity.
+  - remember (c - 65536) as v eqn:Ev. assert (Hv : v < 1048576) by lia.
+    assert (v / 1024 < 1024) by (apply N.div_lt_upper_bound; lia).
+    pose proof (N.mod_lt v 1024 ltac:(lia)). pose proof (N.div_mod v 1024 ltac:(lia)).
+    cbn [join_pairs].
+    assert (Hh : is_high (55296 + v / 1024) = true) by (unfold is_high; apply andb_true_iff; split; apply N.leb_le; lia).
+    assert (Hl : is_low (56320 + v mod 1024) = true). { unfold is_low. apply andb_true_iff. split; apply N.leb_le; [apply N.le_add_r|]. generalize dependent (v mod 1024). clear. intros. lia. }
+    rewrite Hh, Hl. cbn [andb]. rewrite IH. f_equal.
+    rewrite (N.add_comm 55296), N.add_sub, (N.add_comm 56320), N.add_sub, (N.mul_comm (v / 1024)), <- N.add_assoc.
+    rewrite <- (N.div_mod v 1024) by discriminate. subst v. lia.
+Qed.
+
+Lemma r_name_utf16 name rest fuel :
+  wf_name name = true -> (List.length (utf16 name ++ rest) < fuel)%nat ->
+  r_name fuel (utf16 name ++ rest) = POk (flat_map units_of name) rest.
+Proof. intros Hw HF. unfold utf16 in *. apply r_name_units; [apply wf_name_units; exact Hw | exact HF]. Qed.
 
 (* bit vectors *)
 Lemma bits_byte b7 b6 b5 b4 b3 b2 b1 b0 :
@@ -519,3 +566,345 @@ Proof.
             cbn [bind r_u8 fst snd]; lit_if; exists sz; split; [exact Z1 | reflexivity]).
   all: eexists; split; reflexivity.
 Qed.
+
+(* ------------------------------------------------------------------ FilesInfo *)
+Lemma files_loop_step f F nf acc p c rest acc' u :
+  (p =? P_END) = false -> num_ok (lenN c) = true -> files_prop F nf p acc (c ++ rest) = POk acc' u ->
+  files_loop (S f) F nf acc (p :: enc_num (lenN c) ++ c ++ rest) = files_loop f F nf acc' rest.
+Proof.
+  intros Hp Hn Hprop. cbn [files_loop r_u8 bind]. rewrite Hp. rewrite (r_number_enc _ _ Hn). cbn [bind].
+  rewrite Hprop. cbn [bind]. rewrite dropN_app_len. reflexivity.
+Qed.
+
+Lemma files_loop_end f F nf acc rest : files_loop (S f) F nf acc (0 :: rest) = POk acc rest.
+Proof. reflexivity. Qed.
+
+Lemma prop_empty F fs acc rest :
+  files_prop F (lenN fs) 14 acc (pack_bits (map e_empty fs) ++ rest)
+  = POk {| a_empty := map e_empty fs; a_names := a_names acc; a_attrs := a_attrs acc |} rest.
+Proof.
+  unfold files_prop. change (14 =? P_EMPTY_STREAM) with true. cbn match.
+  rewrite <- (lenN_map e_empty fs), r_boolvec_pack. reflexivity.
+Qed.
+
+Lemma prop_skip F nf acc x : files_prop F nf 15 acc x = POk acc x.
+Proof. reflexivity. Qed.
+
+Lemma utf16u_length us : (1 <= List.length (utf16u us))%nat.
+Proof. unfold utf16u. rewrite app_length. cbn [List.length]. lia. Qed.
+
+Lemma map_join_units names : forallb wf_name names = true -> map join_pairs (map (fun n => flat_map units_of n) names) = names.
+Proof.
+  induction names as [|n names IH]; cbn [forallb map]; [reflexivity|]. intro H. apply andb_true_iff in H as [H1 H2].
+  rewrite (join_pairs_units n H1), (IH H2). reflexivity.
+Qed.
+
+Lemma wf_units_names names : forallb wf_name names = true -> forallb wf_units (map (fun n => flat_map units_of n) names) = true.
+Proof.
+  induction names as [|n names IH]; cbn [forallb map]; [reflexivity|]. intro H. apply andb_true_iff in H as [H1 H2].
+  rewrite (wf_name_units n H1), (IH H2). reflexivity.
+Qed.
+
+Lemma prop_names F fs acc rest :
+  forallb (fun f => wf_name (e_name f)) fs = true ->
+  (List.length (flat_map (fun f => utf16 (e_name f)) fs ++ rest) < F)%nat ->
+  files_prop F (lenN fs) 17 acc (0 :: flat_map (fun f => utf16 (e_name f)) fs ++ rest)
+  = POk {| a_empty := a_empty acc; a_names := map e_name fs; a_attrs := a_attrs acc |} rest.
+Proof.
+  intros Hw HF. unfold files_prop. change (17 =? P_EMPTY_STREAM) with false. change (17 =? P_NAME) with true. cbn match.
+  cbn [r_u8 bind]. change (negb (0 =? 0)) with false. cbn match.
+  assert (Hw' : forallb wf_name (map e_name fs) = true) by (rewrite forallb_forall in *; intros x Hx; apply in_map_iff in Hx as [f [<- Hf]]; auto).
+  replace (flat_map (fun f => utf16 (e_name f)) fs)
+    with (flat_map utf16u (map (fun n => flat_map units_of n) (map e_name fs))) in *
+    by (rewrite map_map, <- flat_map_map; reflexivity).
+  replace (lenN fs) with (lenN (map (fun n => flat_map units_of n) (map e_name fs))) by (rewrite !lenN_map; reflexivity).
+  rewrite (rep_ser (r_name F) utf16u wf_units F); try assumption.
+  - cbn [bind]. rewrite (map_join_units _ Hw'). reflexivity.
+  - intros a r Ha Hf. apply r_name_units; assumption.
+  - apply utf16u_length.
+  - apply wf_units_names. exact Hw'.
+Qed.
+
+Lemma set_attrs_all fs : forall old rest,
+  List.length old = List.length fs -> forallb (fun f => e_attr f <? 2 ^ 32) fs = true ->
+  set_attrs (repeat true (List.length fs)) old (flat_map (fun f => le_bytes 4 (e_attr f)) fs ++ rest) = POk (map e_attr fs) rest.
+Proof.
+  induction fs as [|f fs IH]; intros old rest Hl Hw.
+  - destruct old; [reflexivity | discriminate Hl].
+  - destruct old as [|o old]; [discriminate Hl|]. cbn [List.length repeat flat_map forallb map] in *.
+    apply andb_true_iff in Hw as [H1 H2]. apply N.ltb_lt in H1. cbn [set_attrs]. rewrite <- app_assoc.
+    rewrite (r_u32_le _ _ H1). cbn [bind]. rewrite (IH old rest ltac:(lia) H2). reflexivity.
+Qed.
+
+Lemma prop_attrs F fs acc rest :
+  List.length (a_attrs acc) = List.length fs -> forallb (fun f => e_attr f <? 2 ^ 32) fs = true ->
+  files_prop F (lenN fs) 21 acc (1 :: flat_map (fun f => le_bytes 4 (e_attr f)) fs ++ rest)
+  = POk {| a_empty := a_empty acc; a_names := a_names acc; a_attrs := map e_attr fs |} rest.
+Proof.
+  intros Hl Hw. unfold files_prop. change (21 =? P_EMPTY_STREAM) with false. change (21 =? P_NAME) with false.
+  change (21 =? P_WIN_ATTRIBUTES) with true. cbn match. unfold r_boolvec_def. cbn [r_u8 bind].
+  change (negb (1 =? 0)) with true. cbn match. cbn [bind].
+  rewrite lenN_length, Nat2N.id. rewrite (set_attrs_all fs _ rest Hl Hw). reflexivity.
+Qed.
+
+Lemma zip3_map fs : zip3 (map e_empty fs) (map e_name fs) (map e_attr fs) = fs.
+Proof. induction fs as [|f fs IH]; cbn [map zip3]; [reflexivity|]. rewrite IH. destruct f; reflexivity. Qed.
+
+Lemma no_empty_repeat fs : existsb e_empty fs = false -> repeat false (List.length fs) = map e_empty fs.
+Proof.
+  induction fs as [|f fs IH]; cbn [existsb List.length repeat map]; [reflexivity|]. intro H.
+  apply orb_false_iff in H as [H1 H2]. rewrite H1, (IH H2). reflexivity.
+Qed.
+
+Lemma zero_attrs_repeat fs : forallb (fun f => e_attr f =? 0) fs = true -> repeat 0 (List.length fs) = map e_attr fs.
+Proof.
+  induction fs as [|f fs IH]; cbn [forallb List.length repeat map]; [reflexivity|]. intro H.
+  apply andb_true_iff in H as [H1 H2]. apply N.eqb_eq in H1. rewrite H1, (IH H2). reflexivity.
+Qed.
+
+Definition files_body_bytes (fs : list fentry) (emptyfile : option bytes) (with_attrs : bool) : bytes :=
+  let ev := pack_bits (map e_empty fs) in
+  let nm := 0 :: flat_map (fun f => utf16 (e_name f)) fs in
+  let at' := 1 :: flat_map (fun f => le_bytes 4 (e_attr f)) fs in
+  enc_num (lenN fs)
+  ++ (if existsb e_empty fs
+      then [14] ++ enc_num (lenN ev) ++ ev
+           ++ (match emptyfile with Some v => [15] ++ enc_num (lenN v) ++ v | None => [] end)
+      else [])
+  ++ [17] ++ enc_num (lenN nm) ++ nm
+  ++ (if with_attrs then [21] ++ enc_num (lenN at') ++ at' else [])
+  ++ [0].
+
+Lemma files_info_rt fs ef wa rest fuel :
+  wf_files fs ef wa = true ->
+  (List.length (files_body_bytes fs ef wa ++ rest) < fuel)%nat ->
+  parse_files_info fuel (files_body_bytes fs ef wa ++ rest) = POk fs rest.
+Proof.
+  unfold wf_files. intro Hw. repeat (apply andb_true_iff in Hw; destruct Hw as [Hw ?X]).
+  rename Hw into Wn, X3 into Wnames, X2 into Wev, X1 into Wnm, X0 into Wefile, X into Wattr.
+  unfold files_body_bytes. norm. intro HF.
+  unfold parse_files_info. rewrite (r_number_enc _ _ Wn). cbn [bind].
+  replace (N.to_nat (lenN fs)) with (List.length fs) by (rewrite lenN_length, Nat2N.id; reflexivity).
+  (* enough fuel for the (at most four) properties and END *)
+  assert (H5 : (6 <= fuel)%nat).
+  { clear - HF. pose proof (enc_num_length (lenN fs)).
+    pose proof (enc_num_length (lenN (0 :: flat_map (fun f => utf16 (e_name f)) fs))).
+    repeat (first [rewrite app_length in HF | progress cbn [List.length] in HF]).
+    destruct (existsb e_empty fs); destruct wa; repeat (first [rewrite app_length in HF | progress cbn [List.length] in HF]); lia. }
+  destruct fuel as [|[|[|[|[|f]]]]]; try lia.
+  set (F := S (S (S (S (S f))))) in *.
+  set (k := List.length fs).
+  assert (Hnames : forall acc g rest',
+            (List.length (flat_map (fun f0 => utf16 (e_name f0)) fs ++ rest') < F)%nat ->
+            files_loop (S g) F (lenN fs) acc (17 :: enc_num (lenN (0 :: flat_map (fun f0 => utf16 (e_name f0)) fs))
+                                               ++ 0 :: flat_map (fun f0 => utf16 (e_name f0)) fs ++ rest')
+            = files_loop g F (lenN fs) {| a_empty := a_empty acc; a_names := map e_name fs; a_attrs := a_attrs acc |} rest').
+  { intros acc g rest' Hl. apply (files_loop_step g F _ acc 17 (0 :: flat_map (fun f0 => utf16 (e_name f0)) fs) rest' _ rest'); [reflexivity | exact Wnm |].
+    cbn [app]. apply prop_names; assumption. }
+  assert (Hattr : forall acc g rest', List.length (a_attrs acc) = k ->
+            wa = true ->
+            files_loop (S g) F (lenN fs) acc (21 :: enc_num (lenN (1 :: flat_map (fun f0 => le_bytes 4 (e_attr f0)) fs))
+                                               ++ 1 :: flat_map (fun f0 => le_bytes 4 (e_attr f0)) fs ++ rest')
+            = files_loop g F (lenN fs) {| a_empty := a_empty acc; a_names := a_names acc; a_attrs := map e_attr fs |} rest').
+  { intros acc g rest' Hl Ewa. subst wa. apply andb_true_iff in Wattr as [A1 A2].
+    apply (files_loop_step g F _ acc 21 (1 :: flat_map (fun f0 => le_bytes 4 (e_attr f0)) fs) rest' _ rest'); [reflexivity | exact A2 |].
+    cbn [app]. apply prop_attrs; assumption. }
+  (* tail: Names, optional Attributes, END - from any accumulator whose empty vector is already right *)
+  assert (Htail : forall acc g, a_empty acc = map e_empty fs -> a_attrs acc = repeat 0 k ->
+            (let* (acc', r) := files_loop (S (S (S g))) F (lenN fs) acc
+                                 (17 :: enc_num (lenN (0 :: flat_map (fun f0 => utf16 (e_name f0)) fs))
+                                  ++ 0 :: flat_map (fun f0 => utf16 (e_name f0)) fs
+                                  ++ (if wa then 21 :: enc_num (lenN (1 :: flat_map (fun f0 => le_bytes 4 (e_attr f0)) fs))
+                                                ++ 1 :: flat_map (fun f0 => le_bytes 4 (e_attr f0)) fs else []) ++ 0 :: rest) in
+             POk (zip3 (a_empty acc') (a_names acc') (a_attrs acc')) r) = POk fs rest).
+  { intros acc g He Ha. rewrite Hnames by (clear - HF; destruct (existsb e_empty fs); destruct ef; destruct wa; revert HF; norm; intro HF; fuel_tac).
+    destruct wa eqn:Ewa; norm.
+    - rewrite Hattr; [ | cbn [a_attrs]; rewrite Ha; apply repeat_length | reflexivity ].
+      rewrite files_loop_end. cbn [bind a_empty a_names a_attrs]. rewrite He, zip3_map. reflexivity.
+    - rewrite files_loop_end. cbn [bind a_empty a_names a_attrs]. rewrite He, Ha. unfold k.
+      rewrite (zero_attrs_repeat fs Wattr), zip3_map. reflexivity. }
+  change (files_loop F F) with (files_loop (S (S (S (S (S f))))) F).
+  destruct (existsb e_empty fs) eqn:Ee; norm.
+  - rewrite (files_loop_step _ F _ _ 14 (pack_bits (map e_empty fs)) _ _ _ eq_refl Wev (prop_empty F fs _ _)).
+    destruct ef as [v|]; norm.
+    + rewrite (files_loop_step _ F _ _ 15 v _ _ _ eq_refl Wefile (prop_skip F _ _ _)).
+      apply Htail; reflexivity.
+    + apply Htail; reflexivity.
+  - apply Htail; [apply no_empty_repeat; exact Ee | reflexivity].
+Qed.
+
+(* ------------------------------------------------------------------ whole header *)
+Lemma ser_streams_shape h crcs :
+  negb (match h_pack h, h_folders h with None, [] => true | _, _ => false end) = true ->
+  ser_streams h crcs = 4 :: streams_body_bytes (h_pack h) (h_folders h) (h_ss h) crcs.
+Proof.
+  intro H. unfold ser_streams, streams_body_bytes, ser_pack, ser_unpack, ser_ss, unpack_body_bytes, ss_body_bytes,
+    crc_bytes, pack_body_bytes.
+  destruct (h_pack h) as [pk|]; destruct (h_folders h) as [|f fl]; try discriminate H;
+    destruct (h_ss h); repeat (rewrite <- app_assoc || cbn [app]); reflexivity.
+Qed.
+
+Lemma ser_files_shape fs ef wa : fs <> [] -> ser_files fs ef wa = 5 :: files_body_bytes fs ef wa.
+Proof.
+  intro H. destruct fs as [|f fs]; [congruence|]. unfold ser_files, files_body_bytes.
+  repeat (rewrite <- app_assoc || cbn [app]). reflexivity.
+Qed.
+
+Section HeaderRT.
+  Variable T : tables.
+  Variable lzma_alone : bytes -> option N -> bytes -> dres.
+  Variable lzma2_raw : N -> bytes -> dres.
+
+  Lemma header_rt h crcs ef wa rest fuel body :
+    wf_header h crcs ef wa = true ->
+    (List.length (ser_header h crcs ef wa ++ rest) < fuel)%nat ->
+    exists st, state_of h = Some st /\
+      parse_end_header T lzma_alone lzma2_raw fuel body (ser_header h crcs ef wa ++ rest) = POk st rest.
+  Proof.
+    unfold wf_header. intro Hw. repeat (apply andb_true_iff in Hw; destruct Hw as [Hw ?X]).
+    rename Hw into Wp, X2 into Wn, X1 into Wf, X0 into Ws, X into Wfiles.
+    unfold ser_header. norm. intro HF.
+    unfold parse_end_header. cbn [r_u8 bind]. change (1 =? P_ENCODED_HEADER) with false. cbn match. cbn [bind].
+    change (1 =? P_HEADER) with true. cbn match.
+    unfold state_of.
+    destruct (match h_pack h, h_folders h with None, [] => true | _, _ => false end) eqn:Enone.
+    - (* no streams info at all *)
+      assert (h_pack h = None /\ h_folders h = []) as [Ep Efl]
+        by (destruct (h_pack h); destruct (h_folders h); try discriminate Enone; auto).
+      assert (Ess : h_ss h = None).
+      { destruct (h_ss h) as [x|]; [|reflexivity]. apply andb_true_iff in Ws as [_ Ws]. discriminate Ws. }
+      unfold ser_streams in *. rewrite Ep, Efl, Ess in *. cbn [app] in *.
+      unfold file_sizes, num_streams. cbn [default_sizes rev_new unpack_lasts map].
+      eexists. split; [reflexivity|].
+      unfold parse_main_header.
+      destruct (h_files h) as [|f0 fs0] eqn:Ef.
+      + cbn [ser_files app r_u8 bind]. reflexivity.
+      + rewrite <- Ef in *. revert HF. rewrite (ser_files_shape (h_files h) ef wa) by (rewrite Ef; discriminate).
+        norm. intro HF. cbn [r_u8 bind]. lit_if.
+        rewrite (files_info_rt (h_files h) ef wa (0 :: rest) fuel Wfiles) by (clear - HF; fuel_tac).
+        cbn [bind r_u8 fst snd]. reflexivity.
+    - (* MainStreamsInfo present *)
+      revert HF. rewrite (ser_streams_shape h crcs) by (rewrite Enone; reflexivity). norm. intro HF.
+      assert (Ws' : match h_ss h with Some x => wf_ss (h_folders h) x crcs | None => true end = true).
+      { destruct (h_ss h); [|reflexivity]. apply andb_true_iff in Ws as [Ws _]. exact Ws. }
+      destruct (streams_info_rt (h_pack h) (h_folders h) (h_ss h) crcs
+                  (ser_files (h_files h) ef wa ++ 0 :: rest) fuel Wp Wn Wf Ws' ltac:(clear - HF; fuel_tac)) as [sz [Z1 Z2]].
+      rewrite Z1. eexists. split; [reflexivity|].
+      unfold parse_main_header. cbn [r_u8 bind]. lit_if. rewrite Z2. cbn [bind fst snd].
+      destruct (h_files h) as [|f0 fs0] eqn:Ef.
+      + cbn [ser_files app r_u8 bind]. reflexivity.
+      + rewrite <- Ef in *. revert HF. rewrite (ser_files_shape (h_files h) ef wa) by (rewrite Ef; discriminate).
+        norm. intro HF. cbn [r_u8 bind]. lit_if.
+        rewrite (files_info_rt (h_files h) ef wa (0 :: rest) fuel Wfiles) by (clear - HF; fuel_tac).
+        cbn [bind r_u8 fst snd p_pack p_folders p_nstreams p_sizes]. reflexivity.
+  Qed.
+End HeaderRT.
+
+(* ------------------------------------------------------------------ the archive: start header + area + end header *)
+Lemma takeN_all {A} (l : list A) : takeN (lenN l) l = l.
+Proof. rewrite <- (app_nil_r l) at 2. apply takeN_app_len. Qed.
+
+Lemma r_bytes_le k x rest : r_bytes (N.of_nat k) (le_bytes k x ++ rest) = POk (le_bytes k x) rest.
+Proof. pose proof (r_bytes_app (le_bytes k x) rest) as H. rewrite lenN_length, length_le_bytes in H. exact H. Qed.
+
+Section ArchiveRT.
+  Variable T : tables.
+  Variable lzma_alone : bytes -> option N -> bytes -> dres.
+  Variable lzma2_raw : N -> bytes -> dres.
+  Variable crc32 : bytes -> N.
+
+  Lemma open_7z_rt area hb :
+    wf_archive crc32 area hb = true ->
+    open_7z crc32 (archive_bytes crc32 area hb) = POk (hb, area ++ hb) [].
+  Proof.
+    unfold wf_archive. intro Hw. repeat (apply andb_true_iff in Hw; destruct Hw as [Hw ?X]).
+    apply N.ltb_lt in Hw, X1, X0, X.
+    unfold open_7z. set (tail := sig_tail crc32 area hb) in *.
+    assert (Hdrop : takeN 20 (dropN 12 (archive_bytes crc32 area hb)) = tail).
+    { unfold archive_bytes. fold tail.
+      replace (MAGIC7 ++ [0; 4] ++ le_bytes 4 (crc32 tail) ++ tail ++ area ++ hb)
+        with ((MAGIC7 ++ [0; 4] ++ le_bytes 4 (crc32 tail)) ++ tail ++ area ++ hb) by (rewrite <- !app_assoc; reflexivity).
+      replace 12 with (lenN (MAGIC7 ++ [0; 4] ++ le_bytes 4 (crc32 tail))) by reflexivity.
+      rewrite dropN_app_len.
+      replace 20 with (lenN tail) by (unfold tail, sig_tail; rewrite !lenN_app, !lenN_length, !length_le_bytes; reflexivity).
+      apply takeN_app_len. }
+    rewrite Hdrop. unfold archive_bytes. fold tail.
+    change 6 with (lenN MAGIC7). rewrite r_bytes_app. cbn [bind]. rewrite str_eqb_refl. cbn [negb].
+    cbn [app r_u8 bind]. change (negb (0 =? 0) || (4 <? 4)) with false. cbn match.
+    rewrite (r_u32_le _ _ X). cbn [bind].
+    unfold tail at 1, sig_tail. rewrite <- !app_assoc.
+    rewrite (r_bytes_le 8 (lenN area)). cbn [bind]. rewrite (r_bytes_le 8 (lenN hb)). cbn [bind].
+    rewrite (r_u32_le _ _ X0). cbn [bind].
+    rewrite N.eqb_refl. cbn [negb].
+    rewrite !le_val_le_bytes. change (256 ^ N.of_nat 8) with (2 ^ 64). rewrite !N.mod_small by assumption.
+    rewrite dropN_app_len, takeN_all, !N.eqb_refl. reflexivity.
+  Qed.
+
+  Lemma parse_7z_rt h crcs ef wa area :
+    wf_header h crcs ef wa = true -> wf_archive crc32 area (ser_header h crcs ef wa) = true ->
+    exists st, state_of h = Some st /\
+      parse_7z T lzma_alone lzma2_raw crc32 (archive_bytes crc32 area (ser_header h crcs ef wa)) = POk st [].
+  Proof.
+    intros Hh Ha. unfold parse_7z. rewrite (open_7z_rt _ _ Ha). cbn [bind fst snd].
+    pose proof (header_rt T lzma_alone lzma2_raw h crcs ef wa [] (S (List.length (archive_bytes crc32 area (ser_header h crcs ef wa))))
+                  (area ++ ser_header h crcs ef wa) Hh) as H.
+    rewrite app_nil_r in H. apply H. unfold archive_bytes. repeat rewrite app_length. lia.
+  Qed.
+End ArchiveRT.
+
+(* ------------------------------------------------------------------ reader from the parsed state = reader from the header description *)
+Lemma read_7z_state_eq R T la l2 sup low (ext : str -> bytes -> str -> list R) h st asize body apath :
+  state_of h = Some st -> (max_7z T <? asize) = false ->
+  read_7z R T la l2 sup low ext rev_new asize (Some h) body apath = read_7z_state R T la l2 sup low ext st body apath.
+Proof.
+  unfold state_of, read_7z, read_7z_state, list7. intros Hs Hz. rewrite Hz.
+  destruct (file_sizes rev_new (h_folders h) (h_ss h)) as [sz|]; [|discriminate Hs].
+  inversion Hs; subst. cbn [p_files p_sizes p_folders p_pack p_nstreams]. reflexivity.
+Qed.
+
+(* ------------------------------------------------------------------ end to end from the archive BYTES *)
+Lemma dropN_32_archive crc32 area hb : dropN 32 (archive_bytes crc32 area hb) = area ++ hb.
+Proof.
+  unfold archive_bytes.
+  replace (MAGIC7 ++ [0; 4] ++ le_bytes 4 (crc32 (sig_tail crc32 area hb)) ++ sig_tail crc32 area hb ++ area ++ hb)
+    with ((MAGIC7 ++ [0; 4] ++ le_bytes 4 (crc32 (sig_tail crc32 area hb)) ++ sig_tail crc32 area hb) ++ area ++ hb)
+    by (rewrite <- !app_assoc; reflexivity).
+  replace 32 with (lenN (MAGIC7 ++ [0; 4] ++ le_bytes 4 (crc32 (sig_tail crc32 area hb)) ++ sig_tail crc32 area hb))
+    by (unfold sig_tail; rewrite !lenN_app, !lenN_length, !length_le_bytes; reflexivity).
+  apply dropN_app_len.
+Qed.
+
+Section FromBytesThm.
+  Variable R : Type.
+  Variable T : tables.
+  Variable lzma_alone : bytes -> option N -> bytes -> dres.
+  Variable lzma2_raw : N -> bytes -> dres.
+  Variable crc32 : bytes -> N.
+  Variable supported : str -> bool.
+  Variable lower : str -> str.
+  Variable extract : str -> bytes -> str -> list R.
+
+  Definition area7z (junk : bytes) (L : layout) : bytes := junk ++ List.concat (map sg_stream (segs L)).
+
+  Lemma members_exact_from_bytes (L : layout) full junk ad af crcs ef wa apath :
+    let H := pack7z full ad af (lenN junk) L in
+    let hb := ser_header H crcs ef wa in
+    let file := archive_bytes crc32 (area7z junk L) hb in
+    std7z_ok T lzma_alone lzma2_raw L af (lenN file) = true ->
+    wf_header H crcs ef wa = true ->
+    wf_archive crc32 (area7z junk L) hb = true ->
+    read_7z_bytes R T lzma_alone lzma2_raw crc32 supported lower extract file apath
+    = {| yields := expected7 R T supported lower extract apath (all_members L); fin := Done |}.
+  Proof.
+    intros H hb file Hstd Hwf Harch.
+    assert (Hsz : (max_7z T <? lenN file) = false).
+    { unfold std7z_ok in Hstd. apply andb_true_iff in Hstd as [_ Hz]. apply negb_true_iff in Hz. exact Hz. }
+    unfold read_7z_bytes. rewrite Hsz.
+    destruct (parse_7z_rt T lzma_alone lzma2_raw crc32 H crcs ef wa (area7z junk L) Hwf Harch) as [st [S1 S2]].
+    fold hb in S2. fold file in S2. rewrite S2.
+    rewrite <- (read_7z_state_eq R T lzma_alone lzma2_raw supported lower extract H st (lenN file) _ apath S1 Hsz).
+    unfold file. rewrite dropN_32_archive. unfold area7z. rewrite <- app_assoc.
+    change (junk ++ List.concat (map sg_stream (segs L)) ++ hb) with (body7z junk L hb).
+    apply members_exact_7z. exact Hstd.
+  Qed.
+End FromBytesThm.
